@@ -200,7 +200,10 @@ CLAIMED = {
         text="Proved in Lean: a checking pass with its own pass class, placed after the last rewriting pass, runs on every module below "
         "every top whatever earlier passes and calls completed (repeat_pass_sees_every_module, over the abstract runner for any DAG); "
         "out-of-range indices, zero steps and empty selections are rejected for every width (bad_index_rejected, from C03); the array "
-        "width rule accepts exactly w and n*w and hands element k bits [k*w,(k+1)*w). The fault classes themselves are decided by "
+        "width rule accepts exactly w and n*w and hands element k bits [k*w,(k+1)*w); ResolvePortRefs raises exactly on unconnected-and-unreferenced "
+        "ports, shared no-connects and groups with two sources (portrefs_rejects_iff); ConnTypes.check_instance (modelled with its pop-from-a-copy "
+        "algorithm) returns exactly when every port of the target is connected, with the port's width, and nothing else is (conntypes_passes_iff; "
+        "the reported bad connections are compared name by name with the model's statuses on random fault mixes). The other fault classes are decided by "
         "correspondence: single-fault mutants of valid generated designs (12 classes, sites drawn from every sub-connectable of every "
         "connection, top and deep, scalar/bus/slice/concat/reference/bundle/anonymous/array/pair) and generated ill-formed designs, with "
         "the declarative Sem.src as judge of ill-formedness; elaborate, to_proto and netlist must all raise.",
